@@ -28,7 +28,7 @@ ASSUMPTIONS = [
     "sync tasks / thread pools are not used (async tasks on gates)",
 ]
 TRUSTED = ["CPython 3.12 asyncio (executed as is, virtual clock)", "z3 5.1 (LIA)", "vt.sym explorer", "scripted broker/recording stubs"]
-REQUIRED_COVERS = ["bound_reached", "saturated_with_backlog", "idle_poll", "crashing_message"]
+REQUIRED_COVERS = ["bound_reached", "saturated_with_backlog", "idle_poll", "crashing_message", "ack_in_flight"]
 
 
 def bounds(tier: str) -> Dict[str, Any]:
@@ -45,6 +45,8 @@ def cases(tier: str) -> List[Any]:
             out.append({"M": M, "K": K, "prefix": list(prefix)})
             if M == Ms[-1]:
                 out.append({"M": M, "K": K, "prefix": list(prefix), "crash": True})
+            if M == Ms[0]:
+                out.append({"M": M, "K": K, "prefix": list(prefix), "ack_future": True})
     return out
 
 
@@ -54,15 +56,18 @@ def harness(c: sym.Ctx, case: Dict[str, Any]) -> None:
     if case.get("crash"):
         outcomes[0] = "hook_raise"  # a message whose handling crashes must not change the bound for the others
         c.cover("crashing_message")
-    spec = {"M": M, "kinds": ["valid"] * M, "outcomes": outcomes, "A": "sym", "P": "sym", "N": "none", "wtt": None, "K": case["K"], "prefix": case["prefix"]}
+    spec = {"M": M, "kinds": ["valid"] * M, "outcomes": outcomes, "A": "sym", "P": "sym", "N": "none", "wtt": None, "K": case["K"], "prefix": case["prefix"], "ack_mode": "future" if case.get("ack_future") else False}
     r = _listen.run(c, spec)
     ev = r.lab.ev
     taken = ended = 0
     worst = 0
+    done_kind = "ack" if case.get("ack_future") else "cb_end"  # with acks that complete later, a message is finished once acknowledged
+    if case.get("ack_future"):
+        c.cover("ack_in_flight")
     for e in ev:
         if e[0] == "taken":
             taken += 1
-        elif e[0] == "cb_end":
+        elif e[0] == done_kind:
             ended += 1
         elif e[0] == "tick":
             c.cover("idle_poll")
